@@ -63,7 +63,19 @@ def setup(E, shape):
     pol = shape.get("policy", "DualNorm")
     vk = shape.get("vars", ["boxed"])
     ck = shape.get("cons", [])
-    user, spec = common.make_problem(E, vk, ck, fmt=shape.get("fmt", "coo"))
+    started = dict(loop=False)
+    faults = None
+    if shape.get("start_faults"):
+        # any of the evaluations made before the first trial step may return a non-finite value
+        def faults(kind, v, idx):
+            if started["loop"]:
+                return v
+            b = E.fresh_bool(f"bad_{kind}")
+            if boot.MODE == "sym":
+                return core.SR(core.zexpr(v), bad=b.e)
+            return float("nan") if b else v
+
+    user, spec = common.make_problem(E, vk, ck, fmt=shape.get("fmt", "coo"), faults=faults)
     clock = boot.Clock(E)
     boot.mod("timer").time = clock
     spy = TimerSpy(boot.mod("timer").Timer)
@@ -108,6 +120,7 @@ def setup(E, shape):
     SCR = boot.mod("step.step_control").StepControlResult
 
     def oracle(controller, iterate, rho, dt, display, timer):
+        started["loop"] = True
         k = len(ctx.trials)
         if k >= K:
             raise Abort()  # bound on the number of trial steps reached
@@ -160,6 +173,10 @@ def run(ctx):
         if "Inverse step size" in str(e) and type(e) is Exception:
             ctx.res = None
             ctx.aborted = True
+        elif "Failed to evaluate initial iterate" in str(e) and type(e) is Exception and ctx.shape.get("start_faults"):
+            ctx.res = None
+            ctx.aborted = True
+            ctx.initial_failure = True
         elif type(e).__name__ == "DerivError" and ctx.shape.get("deriv_check"):
             ctx.res = None
             ctx.aborted = True
@@ -225,6 +242,17 @@ def check(ctx):
             if not moved:
                 if ctx.pol not in ("ObjectiveFilter", "LagrangianFilter"):
                     E.prove(t["rho"] == q["rho"], "C16.rho_changes_only_on_accept")
+    if getattr(ctx, "initial_failure", False):
+        E.prove(len(trials) == 0, "C07.initial_point_failure_is_the_dedicated_error_before_any_step")
+        return
+    if ctx.shape.get("start_faults"):
+        # the solve went on: nothing evaluated at the start was non-finite
+        st = ctx.start_iterate
+        bad = False
+        for q in [st.obj] + items(st.obj_grad) + (items(st.cons) if ctx.spec["m"] else []):
+            if isinstance(q, core.SR) and q.bad is not None:
+                bad = lor(bad, core.SB(q.bad))
+        E.prove(lnot(bad), "C07.solve_proceeds_only_from_a_finite_start")
     if getattr(ctx, "deriv_error", False):
         E.prove(len(trials) == 0, "C19.derivative_error_is_raised_before_the_first_step")
         return
@@ -357,7 +385,7 @@ def loop_tasks(combos, K, opts=None):
     out = []
     for c in combos:
         sh = dict(K=K, policy=c.get("policy", "DualNorm"), vars=c.get("vars", ["boxed"]), cons=c.get("cons", []))
-        for k in ("limit", "time_limit", "collect_path", "fmt", "deriv_check"):
+        for k in ("limit", "time_limit", "collect_path", "fmt", "deriv_check", "start_faults"):
             if k in c:
                 sh[k] = c[k]
         o = dict(mulmode="uf", timeout_ms=20000)
